@@ -126,5 +126,27 @@ pub open spec fn hdr32(code: u8, e: IsArrayElement, body_len: int, count: int) -
         r is Ok && buf@.len() <= 254 ==> num <= 255,                                                        // [C03.array.no-truncation]
 //@@ end
 
+// ---- the size-only twins (size_ser.rs): what `serialized_size` adds for a compound of `len` body octets ----
+//@@ fn file=serde_amqp/src/size_ser.rs name=list_size
+//@@ spec
+    ensures
+        (r is Ok) == (len <= 0xffff_fffb),                                                            // [C20.size.compound-refusal] refused exactly when the encoder refuses
+        r is Ok ==> r->Ok_0 == (if len == 0 { seq![0x45u8] } else if len <= 254 { hdr8(0xc0, *is_array_element, len as int, 0) } else { hdr32(0xd0, *is_array_element, len as int, 0) }).len() + len,   // [C20.size.list] serialized_size of a list == header written by write_list + body, in every position
+//@@ end
+
+//@@ fn file=serde_amqp/src/size_ser.rs name=array_size
+//@@ spec
+    ensures
+        (r is Ok) == (len <= 0xffff_fffb),                                                            // [C20.size.compound-refusal]
+        r is Ok ==> r->Ok_0 == (if len <= 254 { hdr8(0xe0, *is_array_element, len as int, 0) } else { hdr32(0xf0, *is_array_element, len as int, 0) }).len() + len,   // [C20.size.array]
+//@@ end
+
+//@@ fn file=serde_amqp/src/size_ser.rs name=map_size
+//@@ spec
+    ensures
+        (r is Ok) == (len <= 0xffff_fffb),                                                            // [C20.size.compound-refusal]
+        r is Ok ==> r->Ok_0 == (if len <= 254 { hdr8(0xc1, *is_array_element, len as int, 0) } else { hdr32(0xd1, *is_array_element, len as int, 0) }).len() + len,   // [C20.size.map]
+//@@ end
+
 } // verus!
 fn main() {}
